@@ -552,8 +552,8 @@ def runUntilSettledF (runTask : Nat → Nat → World → Option (TaskState × W
   if w.aborted cid then
     -- self.tasks.clear()
     let ts := (w.cmd cid).tasks.values
-    let w := w.modCmd cid fun c => { c with tasks := {} }
-    some (ts.foldl (fun w t => w.dropTask t) w)
+    let w := ts.foldl (fun w t => w.dropTask t) w
+    some (w.modCmd cid fun c => { c with tasks := {} })
   else settleLoop runTask loopFuel cid w
 
 /-- `Command::is_done` after settling -/
